@@ -26,16 +26,24 @@ type DummyUDPConn struct {
 	Raddr *net.UDPAddr
 
 	Fn func(b []byte, addr *net.UDPAddr) (int, error)
+
+	consumed bool
 }
 
 func (dc *DummyUDPConn) Read(b []byte) (int, error) {
-	if len(dc.Buffer) == 0 && len(b) > 0 {
+	if len(dc.Buffer) == 0 && dc.consumed && len(b) > 0 {
 		// the datagram has been consumed
 		return 0, io.EOF
 	}
 
 	n := copy(b, dc.Buffer)
 	dc.Buffer = dc.Buffer[n:]
+
+	if len(dc.Buffer) == 0 {
+		// an empty datagram is delivered once, too
+		dc.consumed = true
+	}
+
 	return n, nil
 }
 
